@@ -233,6 +233,56 @@ def dtype_and_penalty_checks(ctx):
                           {"what": "raise-penalize"})
 
 
+def eigen_expansion_checks(ctx):
+    """matrix right-hand side with PRESCRIBED values: every eigenvector returned by solve(*condense(K, M, x=x,
+    D=D)) equals x on the constrained indices and the reduced eigenvector on the kept ones; enforce(K, M) has zero
+    rows in M on the constrained indices (no spurious finite eigenvalues)"""
+    import scipy.linalg as sla
+    from skfem import condense, enforce, solve
+    rng = ctx.rng
+
+    def dense_eigs(A, M, **kw):
+        L, X = sla.eigh(A.toarray(), M.toarray())
+        return L[:4], X[:, :4]
+    for rep in range(ctx.scale(8, 80)):
+        n = rng.randint(6, 10)
+        B = np.array([[rng.randint(-2, 2) if rng.random() < 0.5 else 0 for _ in range(n)] for _ in range(n)], dtype=float)
+        K = sp.csr_matrix(B + B.T + np.diag([float(rng.randint(9, 14)) for _ in range(n)]))
+        C = np.array([[rng.randint(-1, 1) if rng.random() < 0.3 else 0 for _ in range(n)] for _ in range(n)], dtype=float)
+        Mm = sp.csr_matrix(C + C.T + np.diag([float(rng.randint(6, 9)) for _ in range(n)]))
+        D = np.array(sorted(rng.sample(range(n), rng.randint(1, n - 4))), dtype=np.int64)
+        I = np.setdiff1d(np.arange(n), D)
+        x = np.array([rng.randint(-8, 8) / 4 + 0.125 * i for i in range(n)])
+        inp = {"K": K.toarray().tolist(), "M": Mm.toarray().tolist(), "D": D.tolist(), "x": x.tolist()}
+        ctx.case(dict(inp, kind="eigen-expansion", rep=rep), nontrivial=True)
+        ctx.count("eigen:prescribed-values")
+        try:
+            L, X = solve(*condense(K, Mm, x=x, D=D), solver=dense_eigs)
+            Lr, Xr = dense_eigs(K[I][:, I], Mm[I][:, I])
+            ok = X.shape == (n, Xr.shape[1]) and np.allclose(L, Lr) and \
+                all(np.array_equal(X[D, j], x[D]) for j in range(X.shape[1])) and np.allclose(X[I], Xr)
+            if not ok:
+                ctx.violation("eigenvectors expanded by solve(*condense(K, M, x=x, D=D)) do not carry x on the constrained "
+                              "indices and the reduced eigenvectors on the kept ones",
+                              dict(inp, got_on_D=X[D].T.tolist() if X.ndim == 2 else None),
+                              {"what": "eigen-expand"})
+            snap = (K.data.tobytes(), K.indices.tobytes(), K.indptr.tobytes(), Mm.data.tobytes(), Mm.indices.tobytes(),
+                    Mm.indptr.tobytes())
+            K2, M2 = enforce(K, Mm, D=D)
+            condense(K, Mm, D=D)
+            if snap != (K.data.tobytes(), K.indices.tobytes(), K.indptr.tobytes(), Mm.data.tobytes(),
+                        Mm.indices.tobytes(), Mm.indptr.tobytes()) or M2 is Mm or K2 is K:
+                ctx.violation("enforce / condense with a matrix right-hand side modified (or returned) an argument "
+                              "although overwriting was not requested", inp, {"what": "operand-mutated"})
+            M2d = M2.toarray()
+            if np.abs(M2d[D]).max() != 0 or not np.array_equal(M2d[I], Mm.toarray()[I]):
+                ctx.violation("enforce(K, M, D=D): the constrained rows of the second matrix are not zero rows (or other "
+                              "rows changed)", dict(inp, rows=M2d[D].tolist()), {"what": "enforce-mass"})
+        except Exception as ex:
+            ctx.violation("eigenproblem with prescribed values raised " + exc_kind(ex), dict(inp, err=repr(ex)),
+                          {"what": "raise-condense"})
+
+
 def collection_checks(ctx):
     """the same split named as index array / DofsView / dict of disjoint views / dict of OVERLAPPING views
     (facet sets sharing corner DOFs, cell sets sharing facet DOFs), as D and as I, through condense, enforce
@@ -485,6 +535,7 @@ def run(ctx):
                           {"mesh": "MeshTri().refined(1)", "element": "ElementTriP2"}, {"what": "dof-collection"})
         collection_checks(ctx)
         dtype_and_penalty_checks(ctx)
+        eigen_expansion_checks(ctx)
         for bad in ({}, {"I": np.array([0]), "D": np.array([1])}):
             try:
                 condense(A, b, **bad)
